@@ -793,8 +793,45 @@ def payload_failed_only_at_teardown(F, R):
     R.floor('C10.feed', 'drop_payload sites in the dispatchers', n, 6)
 
 
+def request_classes(F, R):
+    """The in-flight limiter lets the chunks of a streamed PUBLISH through while the publish call still holds the budget; it
+    recognises them by `is_publish()` (raises the pass-through flag) and `is_chunk()`. Both are pure tests of the item's kind:
+    true for every Decoded::Publish / Decoded::PayloadChunk and for nothing else - a publish that is not classified as one
+    (by QoS, size, ..) stalls as soon as its payload needs a second read."""
+    n = 0
+    for ver in ('v3', 'v5'):
+        adt = F.adts['%s::codec::Decoded' % ver]
+        for fn, var in (('is_publish', 'Publish'), ('is_chunk', 'PayloadChunk')):
+            b = F.one(r'^%s::dispatcher::<impl inflight::SizedRequest for %s::codec::Decoded>::%s$' % (ver, ver, fn))
+            n += 1
+            tab, other = {}, []
+            for p in SymEx(b, F, max_paths=400).run():
+                if p.end[0] != 'return':
+                    continue
+                d = None
+                for t, c in p.conds:
+                    x = t[1] if t[0] == 'discr' else None
+                    while isinstance(x, tuple) and x and x[0] in ('ref', 'deref'):
+                        x = x[1]
+                    if x == ('arg', 1):
+                        d = c
+                    elif t[0] != 'assert':
+                        other.append(term_str_v(t)[:80])
+                val = p.ret[1] if p.ret and p.ret[0] == 'const' else None
+                for i, v in enumerate(adt['variants']):
+                    k = v.get('discr', i)
+                    if d is None or (d[0] == 'eq' and d[1] == k) or (d[0] == 'ne' and k not in d[1]):
+                        tab.setdefault(v['name'], set()).add(val)
+            want = {v['name']: {int(v['name'] == var)} for v in adt['variants']}
+            R.ob('C10.feed', '%s|Decoded::%s|true-exactly-for-%s' % (ver, fn, var), tab == want and not other,
+                 '%s() is not the plain kind test (by variant: %s%s): items of a streamed publish are not recognised by the in-flight limiter and wait behind the call that is waiting for them' % (
+                     fn, {k: sorted(map(str, v)) for k, v in sorted(tab.items())}, '; also depends on ' + ', '.join(sorted(set(other))[:3]) if other else ''), b.loc(0))
+    R.floor('C10.feed', 'request classifiers of the in-flight limiter', n, 4)
+
+
 def run(F, R):
     payload_failed_only_at_teardown(F, R)
+    request_classes(F, R)
     read_all(F, R)
     partial_frame_reads(F, R)
     for ver in ('v5', 'v3'):
